@@ -48,7 +48,7 @@ type Work struct {
 	Cut     int    `json:"cut,omitempty"`      // >0: the source text handed to the interpreter ends after this many bytes (a program that arrives truncated)
 }
 
-const nSites = 122
+const nSites = 124
 const nWraps = 7
 
 func siteSrc(k int, id string) string {
@@ -304,6 +304,12 @@ func siteSrc(k int, id string) string {
 		return "for x" + id + " in make([]*int64, 2) {\ny" + id + " = [x" + id + "]\nz" + id + " = x" + id + " == nil\nh(" + id + ")\n}\nc" + id + " = make(chan *int64, 1)\nc" + id + " <- nil\nclose(c" + id + ")\nfor v" + id + " in c" + id + " { w" + id + " = {\"k\": v" + id + "} }"
 	case 120:
 		return "m" + id + " = {\"a\": 1, \"b\": 2, \"c\": h(" + id + ")}\nfor k" + id + ", v" + id + " in m" + id + " {\ndelete(m" + id + ", \"a\")\ndelete(m" + id + ", \"b\")\ndelete(m" + id + ", \"c\")\ny" + id + " = [v" + id + "]\nz" + id + " = \"\" + v" + id + "\n}"
+	// modules that reach each other (the references travel through a channel, so they are not copied on the way),
+	// then a module assignment, which copies
+	case 121:
+		return "module A" + id + " { peer = nil; x = 1 }\nmodule B" + id + " { peer = nil; y = 2 }\nmc" + id + " = make(chan interface, 2)\nmc" + id + " <- B" + id + "\nA" + id + ".peer = <-mc" + id + "\nmc" + id + " <- A" + id + "\nB" + id + ".peer = <-mc" + id + "\nc" + id + " = A" + id + "\nh(" + id + ")"
+	case 122:
+		return "module S" + id + " { self = nil; v = 1 }\nmc" + id + " = make(chan interface, 1)\nmc" + id + " <- S" + id + "\nS" + id + ".self = <-mc" + id + "\ngo func() { d" + id + " = S" + id + "; h(" + id + ") }()\ne" + id + " = hid(S" + id + ")\nf" + id + " = e" + id + ""
 	default:
 		return "x" + id + " = hid(1) & hid(\"z\")\ny" + id + " = hid(1.5) | hid(nil)\nz" + id + " = hid({}) ^ 1\nw" + id + " = hid([1, 2]) + hid({\"a\": 1})\nv" + id + " = hid(nil) < hid([1])\nu" + id + " = hid(func() { }) == hid(func() { })"
 	}
